@@ -374,7 +374,7 @@ func init() {
 		Gen:       func(seed uint64, tier string, idx int) *Scenario { return genC20(mixSeed(seed, uint64(idx))) },
 		Run:       runC20,
 		QuickRuns: 100000, ThoroughS: 600,
-		Rule: "one run = one sequence of 2..60 steps (new / AddErrors / AddWarnings / Merge / MergeAsErrors / MergeAsWarnings / Inc / queries, nil and self-similar operands, plain and pooled results) " +
+		Rule: "one run = one sequence of 2..60 steps (new / AddErrors / AddWarnings / Merge / MergeAsErrors / MergeAsWarnings / Inc / queries incl. the content of AsError; nil, self, repeated and self-similar operands; plain and pooled results) " +
 			"checked step by step against an ordered-set model; the simulated pool re-issues operands released by a merge to the next borrower, who mutates them; non-trivial = at least 2 executed steps; distinct = distinct step sequences",
 		Real: commonReal, Stub: commonStub,
 		Assume: []string{
